@@ -346,7 +346,9 @@ def check(prop, tier, nproc=None, budget_s=None, only=None):
             stubs=getattr(H, "STUBS", []), candidates=len(cands), replayed=nrep,
             inconclusive=problems[:20], exhaustive=False,
             slowest_jobs=[dict(job=r["name"], paths=r.get("stats", {}).get("paths", 0), wall_s=round(r.get("wall", 0), 1))
-                          for r in sorted(results, key=lambda r: -r.get("wall", 0))[:8]], **extra),
+                          for r in sorted(results, key=lambda r: -r.get("wall", 0))[:8]],
+            per_job=[[r["name"], r.get("stats", {}).get("paths", 0), r.get("stats", {}).get("solver_calls", 0), round(r.get("wall", 0), 1)]
+                     for r in sorted(results, key=lambda r: r["name"])], **extra),
         assumptions=getattr(H, "ASSUMPTIONS", []),
         wall_s=round(wall, 2), violations=len(violations))
     os.makedirs(os.path.join(VERIF, "evidence"), exist_ok=True)
